@@ -504,6 +504,119 @@ class SegmentationOutcome(Spec):
         return [("canary", z3.BoolVal(len(self._req) == 1))]
 
 
+class GotShares(Spec):
+    """DownloadNode.got_shares: every share the finder hands over is recorded by the node -- also when the active
+    fetcher refuses them (a fetcher that was stopped a moment ago raises) -- and a live fetcher is told about them"""
+    file = "allmydata/immutable/downloader/node.py"
+    qualname = "DownloadNode.got_shares"
+    cross_check = 0
+    canary_case = {"fetcher": "live"}
+
+    @property
+    def raises(self):
+        return (AttributeError,)
+
+    def inputs(self):
+        return {"fetcher": ChoiceK(["none", "live", "stopped"])}
+
+    def all_cases(self):
+        return [{"fetcher": f} for f in ("none", "live", "stopped")]
+
+    def config(self):
+        return {"overrides": dict(LOG)}
+
+    def run(self, I, a):
+        from pyvc.interp import PyRaise
+        self._told = []
+
+        def add_shares(I_, a_, k_):
+            if a["fetcher"] == "stopped":
+                raise PyRaise(AttributeError("'SegmentFetcher' object has no attribute '_shares'"), AttributeError)
+            self._told.append(set(a_[0]))
+        old = stub("share-old")
+        new1, new2 = stub("share-new1"), stub("share-new2")
+        self._objs = (old, new1, new2)
+        node = SObj(self.module().DownloadNode, {"_shares": {old}, "_active_segment": (None if a["fetcher"] == "none" else stub("fetcher", add_shares=add_shares))})
+        try:
+            out = Outcome("return", I.call_value(self.target(I), [node, [new1, new2]], {}))
+        except PyRaise as pr:
+            out = Outcome("raise", exc=pr.exc, exc_cls=pr.cls)
+        out.post = {"node": node}
+        return out
+
+    def ensures(self, I, a, out):
+        old, new1, new2 = self._objs
+        have = set(getattr(x, "v", x) for x in out.post["node"].fields["_shares"])
+        return [("every-share-handed-over-is-recorded-by-the-node-whatever-the-fetcher-does", z3.BoolVal(have == {old, new1, new2})),
+                ("a-live-fetcher-is-told-about-exactly-these-shares", z3.BoolVal(a["fetcher"] != "live" or self._told == [{new1, new2}])),
+                ("only-a-stopped-fetcher-makes-the-call-raise", z3.BoolVal((out.kind == "raise") == (a["fetcher"] == "stopped")))]
+
+    def canary(self, I, a, out):
+        return [("canary", z3.BoolVal(len(self._told) == 0))]
+
+
+class StartNewSegment(Spec):
+    """DownloadNode._start_new_segment: a new fetcher is started only when none is active and a request is queued, for the
+    segment at the head of the queue, and it is given exactly the shares that are still alive (a dead share would sit in
+    its active map for ever: Share.get_block on a dead share never answers)"""
+    file = "allmydata/immutable/downloader/node.py"
+    qualname = "DownloadNode._start_new_segment"
+    cross_check = 0
+    raises = ()
+    canary_case = {"active": False, "queue": 2, "alive": (True, False, True)}
+
+    def inputs(self):
+        return {"active": ChoiceK([False, True]), "queue": ChoiceK([0, 1, 2]), "alive": ChoiceK([()])}
+
+    def all_cases(self):
+        import itertools
+        return [{"active": ac, "queue": q, "alive": al} for ac in (False, True) for q in (0, 1, 2) for n in (0, 1, 3) for al in itertools.product((False, True), repeat=n)]
+
+    def config(self):
+        me = self
+        o = dict(LOG)
+
+        def make_fetcher(I, a, kw):
+            f = stub("fetcher", add_shares=lambda I_, a_, k_: me._given.append(list(a_[0])))
+            me._fetchers.append((f, a[1], a[2]))
+            return f
+        o["node.SegmentFetcher"] = make_fetcher
+        o["fetcher.SegmentFetcher"] = make_fetcher
+        return {"overrides": o}
+
+    def run(self, I, a):
+        self._given, self._fetchers, self._activated = [], [], []
+        shares = [stub("share%d" % i, is_alive=(lambda I_, a_, k_, al=al: al)) for i, al in enumerate(a["alive"])]
+        self._shares = shares
+        reqs = [(7 + j, "d%d" % j, "c%d" % j, stub("ev%d" % j, activate=(lambda I_, a_, k_, j=j: self._activated.append(j))), None) for j in range(a["queue"])]
+        old = stub("old-fetcher") if a["active"] else None
+        node = SObj(self.module().DownloadNode, {"_active_segment": old, "_segment_requests": list(reqs), "_shares": set(shares), "_lp": None,
+                                                "_verifycap": stub("vcap", needed_shares=3)})
+        node.fields["__repr__"] = stub("x", f=lambda I_, a_, k_: "node").fields["f"]
+        I.call_value(self.target(I), [node], {})
+        out = Outcome("return", node)
+        out.post = {"old": old}
+        return out
+
+    def ensures(self, I, a, out):
+        node = out.value
+        start = (not a["active"]) and a["queue"] > 0
+        alive = [sh for sh, al in zip(self._shares, a["alive"]) if al]
+        given = [getattr(x, "v", x) for x in (self._given[0] if self._given else [])]
+        g = [("a-fetcher-is-started-exactly-when-none-is-active-and-a-request-is-queued", z3.BoolVal(len(self._fetchers) == (1 if start else 0)))]
+        if start and self._fetchers:
+            f, segnum, k = self._fetchers[0]
+            g += [("it-serves-the-request-at-the-head-of-the-queue-with-k-of-the-cap", z3.BoolVal(segnum == 7 and k == 3 and self._activated == [0])),
+                  ("it-becomes-the-active-segment", z3.BoolVal(node.fields["_active_segment"] is f)),
+                  ("it-is-given-exactly-the-shares-that-are-alive", z3.BoolVal(len(self._given) == 1 and len(given) == len(alive) and all(any(x is y for y in alive) for x in given)))]
+        else:
+            g.append(("otherwise-nothing-changes", z3.BoolVal(node.fields["_active_segment"] is out.post["old"] and not self._given)))
+        return g
+
+    def canary(self, I, a, out):
+        return [("canary", z3.BoolVal(len(self._given) == 0))]
+
+
 class DesireOffsets(Spec):
     """Share._desire_offsets: as long as the offset table is unknown, the version word -- and, once the version is known,
     the offset table -- is data the share cannot do without (gotta_gotta_have_it), whether or not the server tolerates
@@ -547,4 +660,4 @@ class DesireOffsets(Spec):
 
 
 def contracts(tier):
-    return [ProcessBlocks(), FetchFailed(), SegmentationOutcome(), DesireOffsets()]
+    return [ProcessBlocks(), FetchFailed(), SegmentationOutcome(), DesireOffsets(), GotShares(), StartNewSegment()]
